@@ -6,6 +6,7 @@ import Orx.GenThms.Arr
 import Orx.IW.FullLedgerRun
 import Orx.GenThms.ProtoSim
 import Orx.GenThms.ProtoSimBuf
+import Orx.GenThms.Surface
 /-! # C03 Chunk contract: non-empty, bounded, consecutive, exact length -/
 namespace Orx.Props.C03
 open Orx Orx.KS
@@ -168,5 +169,31 @@ chunk (`nth`, `last`, `fold`, `count`, `skip`, `peekable`, …) is std's default
 theorem source_chunk_iterator_defines_next_and_len_only :
     GenP.ChunkIt.iterator_overrides = ["next", "size_hint"] ∧ GenP.ChunkIt.exact_size_overrides = ["len"] ∧ GenP.ChunkIt.has_drop = false :=
   GenThms.Proto.chunk_iterator_defines_next_and_len_only
+
+section Surface
+open Orx.GenThms.Surface
+
+/-- the seven chunk pullers (`BufferedChunk`) define `new`, `chunk_size`, `pull` and nothing else; the buffered iterator over them has
+`new` and `next` only -/
+theorem source_chunk_pullers_are_the_modelled_ones :
+    ((implsOf "BufferedChunk").all fun ty => fnsOf "BufferedChunk" ty == [["new", "chunk_size", "pull"]]) = true ∧
+    sameSet (implsOf "BufferedChunk") ["BufferedArray", "ClonedBufferedChunk", "CopiedBufferedChunk", "BufferIter", "BufferedRange",
+      "BufferedSlice", "BufferedVec"] = true ∧
+    fnsOf "trait" "BufferedChunk" = [["new", "chunk_size", "pull"]] ∧
+    -- two types are called `BufferedIter`: the buffered iterator (buffered_iter.rs: `new`, `next`) and the chunk value iterator
+    -- of the wrapper (iter.rs: no inherent impl)
+    fnsOf "" "BufferedIter" = [["new", "next"]] :=
+  Orx.GenThms.Surface.the_chunk_pullers
+
+/-- the std iterators the crate defines, and the methods each overrides (everything else is std's default over `next`) -/
+theorem source_value_iterators_are_the_modelled_ones :
+    sameSet (implsOf "Iterator") ["BufferedIter", "Taken", "ConIterIdsAndValues", "ConIterValues"] = true ∧
+    fnsOf "Iterator" "BufferedIter" = [["next", "size_hint"]] ∧ fnsOf "Iterator" "Taken" = [["next", "size_hint"]] ∧
+    fnsOf "Iterator" "ConIterIdsAndValues" = [["next"]] ∧ fnsOf "Iterator" "ConIterValues" = [["next"]] ∧
+    sameSet (implsOf "ExactSizeIterator") ["BufferedIter", "Taken"] = true ∧
+    fnsOf "ExactSizeIterator" "BufferedIter" = [["len"]] ∧ fnsOf "ExactSizeIterator" "Taken" = [[]] :=
+  Orx.GenThms.Surface.the_iterators
+
+end Surface
 
 end Orx.Props.C03
